@@ -82,6 +82,14 @@ class CondGen(object):
         neg = r.random() < 0.15
         return ('-' if neg else '') + txt + sp + u, (-1 if neg else 1) * val * PT[u]
 
+    def term(self, operand):
+        """what ends a number: \\relax, or -- after a literal written in digits -- a single space (TeX stops at the space and does not
+        look at what follows; the branch may then begin with a command that has side effects)"""
+        if operand[-1:].isdigit() and self.r.random() < 0.45:
+            self.features.add('number-ended-by-space')
+            return ' '
+        return '\\relax '
+
     # -- structure --------------------------------------------------------------
     def branch(self, depth):
         """content of one branch: marker + private counter step + optional nested stuff"""
@@ -92,7 +100,7 @@ class CondGen(object):
         name = 'zk' + alpha(self.nb)
         self.nb += 1
         self.branches.append(name)
-        out = 'W' + name[2:].upper() + 'x' + '\\stepcounter{%s}' % name
+        out = ('W' + name[2:].upper() + 'x' + '\\stepcounter{%s}' % name) if r.random() < 0.5 else ('\\stepcounter{%s}' % name + 'W' + name[2:].upper() + 'x')
         if self.switches and r.random() < 0.2:
             sw = r.choice(self.switches)
             out += '\\%s%s ' % (sw[2:], r.choice(['true', 'false']))
@@ -121,7 +129,7 @@ class CondGen(object):
                 sel_txt = str(sel) if sel >= 0 else '-' + str(-sel)
             has_else = r.random() < 0.5
             self.features.add('ifcase:%s:%s' % ('in' if 0 <= sel < ncases else 'out', 'else' if has_else else 'noelse'))
-            s = '\\ifcase ' + sel_txt + '\\relax ' + '\\or '.join(self.branch(depth) for _ in range(ncases))
+            s = '\\ifcase ' + sel_txt + self.term(sel_txt) + '\\or '.join(self.branch(depth) for _ in range(ncases))
             if has_else:
                 s += '\\else ' + self.branch(depth)
             return s + '\\fi '
@@ -131,7 +139,7 @@ class CondGen(object):
             a, _ = self.int_operand()
             b, _ = self.int_operand()
             sp = r.choice(['', '', ' '])
-            test = '\\ifnum ' + a + sp + r.choice('<=>') + sp + b + '\\relax '
+            test = '\\ifnum ' + a + sp + r.choice('<=>') + sp + b + self.term(b)
             if a.startswith('\\zqn') and sp == '':
                 pass
         elif k == 'ifdim':
@@ -149,7 +157,7 @@ class CondGen(object):
             test = '\\ifdim ' + a + r.choice('<=>') + b + '\\relax '
         elif k == 'ifodd':
             a, _ = self.int_operand()
-            test = '\\ifodd ' + a + '\\relax '
+            test = '\\ifodd ' + a + self.term(a)
         elif k == 'ifx':
             if r.random() < 0.5:
                 c1 = r.choice('abAB12')
